@@ -79,7 +79,8 @@ def fresh_values(run, calls):
 def _volatile(fi, how, calls):
     install_env()
     f = FORMULAS[fi]
-    d = {P + 'A2': 1, P + 'A1': f, P + 'B1': '=%sA1' % P, P + 'C1': '=IF(TRUE,%sA1,0)' % P, P + 'D1': '=%sA2+1' % P}
+    d = {P + 'A2': 1, P + 'A1': f, P + 'B1': '=%sA1' % P, P + 'C1': '=IF(TRUE,%sA1,0)' % P, P + 'D1': '=%sA2+1' % P,
+         P + 'A0': 0, P + 'R1': '=SUM(%sA1:A1,%sA0)' % (P, P), P + 'R2': '=MAX(%sA1:A1)+0' % P}
     m = formulas.ExcelModel().from_dict(d).finish(complete=False)
 
     def val(v):
@@ -87,12 +88,18 @@ def _volatile(fi, how, calls):
         return np.ravel(v)[0] if isinstance(v, np.ndarray) else v
 
     def three(sol):
-        return tuple(val(sol[P + k]) for k in ('A1', 'B1', 'C1'))
+        a, b, c = (val(sol[P + k]) for k in ('A1', 'B1', 'C1'))
+        if isinstance(a, (int, float)) and not isinstance(a, bool):
+            # cells reaching the volatile cell THROUGH A RANGE see the same single value
+            r1, r2 = val(sol[P + 'R1']), val(sol[P + 'R2'])
+            if not (abs(r1 - a) < 1e-9 and abs(r2 - a) < 1e-9):
+                return (a, 'range sees %r / %r' % (r1, r2), c)
+        return a, b, c
     if how == 0:                                         # the loaded model
         run = lambda: three(m.calculate())
     elif how == 1:                                       # compiled to a function (volatile cell does not depend on the input)
-        fn = m.compile([P + 'A2'], [P + 'A1', P + 'B1', P + 'C1'])
-        run = lambda: tuple(val(v) for v in fn(1))
+        fn = m.compile([P + 'A2'], [P + 'A1', P + 'B1', P + 'C1', P + 'R1', P + 'R2'])
+        run = lambda: three(dict(zip([P + k for k in ('A1', 'B1', 'C1', 'R1', 'R2')], fn(1))))
     elif how == 2:                                       # copied
         m2 = copy.deepcopy(m)
         run = lambda: three(m2.calculate())
